@@ -390,17 +390,69 @@ def gen_op(rng, gids, nids, kinds=None, pnames=None, merge=False, direct=True):
     raise ValueError(op)
 
 
+LINK_OPS = ("update_link_property", "unset_link_property", "update_link_properties", "get_link_properties")
+NODE_OPS = ("delete_node", "update_node_property", "unset_node_property", "update_node_properties", "get_node_properties",
+            "merge_nodes")
+
+
+class Shadow:
+    """what earlier requests of a history (probably) created; used only to aim later requests at existing
+    nodes and links - nothing here is an oracle"""
+
+    def __init__(self):
+        self.nodes, self.links = [], []
+
+    def note(self, req):
+        if req[0] == "add_node":
+            self.nodes.append((req[1], req[2]))
+        elif req[0] == "add_link":
+            self.links.append((req[1], req[2], req[4], req[3]))
+        elif req[0] in ("add_graph", "add_graph_direct"):
+            ns = req[2]["nodes"]
+            for a in ns:
+                if a.get(NODE_ID):
+                    self.nodes.append((req[1], a[NODE_ID]))
+            for i, j, d in req[2]["edges"]:
+                if ns[i].get(NODE_ID) and ns[j].get(NODE_ID) and d.get(CLASS):
+                    self.links.append((req[1], ns[i][NODE_ID], ns[j][NODE_ID], d[CLASS]))
+
+    def aim(self, rng, req, gids):
+        op = req[0]
+        if op == "add_link" and self.nodes and rng.random() < 0.7:
+            g = rng.choice(self.nodes)[0]
+            mine = [x for gg, x in self.nodes if gg == g]
+            req[1], req[2], req[4] = g, rng.choice(mine), rng.choice(mine)
+        elif op in LINK_OPS and self.links and rng.random() < 0.75:
+            g, a, b, rel = rng.choice(self.links)
+            if rng.random() < 0.5:
+                a, b = b, a
+            req[1], req[2], req[3] = g, a, b
+            if op != "get_link_properties" and rng.random() < 0.85:
+                req[4] = rel
+        elif op in NODE_OPS and self.nodes and rng.random() < 0.6:
+            g, x = rng.choice(self.nodes)
+            req[1], req[2] = g, x
+            if op == "merge_nodes":
+                req[3] = rng.choice([y for y in gids if y != g])
+                both = [(ga, xa, gb) for ga, xa in self.nodes for gb, xb in self.nodes if xa == xb and ga != gb]
+                if both and rng.random() < 0.8:
+                    req[1], req[2], req[3] = rng.choice(both)
+        return req
+
+
 def gen_history(rng, length, ngraphs=3, nnodes=4, **kw):
     gids = ["g%d" % (i + 1) for i in range(ngraphs)]
     nids = ["n%d" % (i + 1) for i in range(nnodes)]
-    h = []
+    h, sh = [], Shadow()
     # seed the store so that most operations find something to act on
     for g in gids[:max(2, ngraphs - 1)]:
         if rng.random() < 0.7:
             ig = gen_igraph(rng, nids, allow_bad=False)
             h.append(["add_graph", g, ig])
+            sh.note(h[-1])
     while len(h) < length:
-        h.append(gen_op(rng, gids, nids, **kw))
+        h.append(sh.aim(rng, gen_op(rng, gids, nids, **kw), gids))
+        sh.note(h[-1])
     return h
 
 
